@@ -310,6 +310,18 @@ func c02Tasks(tier string) []Task {
 			}
 		}
 	}
+	// a failed operation is not in the log: every I/O call of the last operation fails once; the restart that follows
+	// shows the mapping that was live (C01's fault level, judged here for what the RESTART shows)
+	{
+		run := func(cfg Cfg, keys []string, ops []Op, res *TaskResult) *Violation {
+			v := runC01Fault(cfg, keys, ops, res)
+			if v != nil {
+				v.Prop = "C02"
+			}
+			return v
+		}
+		tasks = append(tasks, seqTasks("C02", []seqLevel{{Name: "fault-d3", Cfgs: c01FaultCfgs(), Keys: keysAB, Alpha: c01FaultAlphabet, Depth: 3, Dev: 3, Run: run}})...)
+	}
 	// the same directory under both spellings of its path (with / without a trailing separator), merges in between
 	{
 		run := makeRunC02(defaultCfg, defaultCfg, []Cfg{defaultCfg})
